@@ -654,6 +654,12 @@ Subtree ts_subtree_edit(Subtree self, const TSInputEdit *input_edit, SubtreePool
     Edit edit;
   } EditEntry;
 
+  // Whether text that follows the edit on its last line has moved to another column. This is decided
+  // from the edit's absolute positions: inside the loop the positions are relative to a node, where a
+  // column on the node's first row is counted from the node's start but a column on a later row is not,
+  // so two relative columns on different rows cannot be compared.
+  bool column_shifted = input_edit->new_end_point.column != input_edit->old_end_point.column;
+
   Array(EditEntry) stack = array_new();
   array_push(&stack, ((EditEntry) {
     .tree = &self,
@@ -670,7 +676,6 @@ Subtree ts_subtree_edit(Subtree self, const TSInputEdit *input_edit, SubtreePool
     bool is_noop = edit.old_end.bytes == edit.start.bytes && edit.new_end.bytes == edit.start.bytes;
     bool is_pure_insertion = edit.old_end.bytes == edit.start.bytes;
     bool parent_depends_on_column = ts_subtree_depends_on_column(*entry.tree);
-    bool column_shifted = edit.new_end.extent.column != edit.old_end.extent.column;
 
     Length size = ts_subtree_size(*entry.tree);
     Length padding = ts_subtree_padding(*entry.tree);
